@@ -11,7 +11,9 @@ LEVEL = "exploration"
 TIMEOUT = 300
 BUDGET = {"quick": 170, "thorough": 1500}
 REQUIRED_MONITORS = ["allocations"]
-RULE = ("Programs mixing untyped values (inputs, results, memories) with explicitly typed ones in arithmetic, "
+RULE = ("[strata added in the build: bundle literals whose members sit at the head of the allocation pool next to "
+        "untyped values; untyped values whose variable name is a game signal name] "
+        "Programs mixing untyped values (inputs, results, memories) with explicitly typed ones in arithmetic, "
         "conditions, merges and memories, including explicit use of the head of the allocation pool (signal-A.., "
         "digits) and programs with 30-140 untyped values, are compiled by the real compiler. (i) A harness "
         "monitor on SignalAnalyzer._allocate_factorio_virtual_signal records every compiler-chosen name: it must "
